@@ -193,7 +193,8 @@ class TableTrace:
                         trace._emit({'op': 'check_out', 'status': getattr(status, 'value', status), 'got': None})
                         raise
                     trace._emit({'op': 'check_out', 'status': getattr(status, 'value', status), 'got': rec.url,
-                                 'level': rec.level, 'inline_level': rec.inline_level, 'try_count': rec.try_count})
+                                 'level': rec.level, 'inline_level': rec.inline_level, 'try_count': rec.try_count,
+                                 'link_type': getattr(rec.link_type, 'value', rec.link_type)})
                     return rec
                 if name == 'check_in':
                     url, status = args[0], args[1]
@@ -241,9 +242,9 @@ def read_rows(db_path):
     con = sqlite3.connect(db_path)
     try:
         cur = con.execute(
-            'select u.url, q.status, q.try_count, q.level, q.inline_level from queued_urls q '
+            'select u.url, q.status, q.try_count, q.level, q.inline_level, q.link_type from queued_urls q '
             'join url_strings u on u.id = q.url_string_id order by q.id')
-        return [dict(url=r[0], status=r[1], try_count=r[2], level=r[3], inline_level=r[4]) for r in cur]
+        return [dict(url=r[0], status=r[1], try_count=r[2], level=r[3], inline_level=r[4], link_type=r[5]) for r in cur]
     finally:
         con.close()
 
